@@ -4,12 +4,14 @@
 -/
 import RosuModel.Model.Cmds.Frame
 import RosuModel.Model.Cmds.Reader
+import RosuModel.Model.Cmds.Writer
 namespace Rosu
 
 def dispatch (toks : List String) : String :=
   ((none : Option String)
     |>.orElse (fun _ => dispatchFrame toks)
     |>.orElse (fun _ => dispatchReader toks)
+    |>.orElse (fun _ => dispatchWriter toks)
     ).getD "bad-request"
 
 end Rosu
